@@ -16,8 +16,10 @@ def extract_sphere(dataset, radius, origin):
     subdomain.meta = dataset.meta.copy()
 
     for name, group in dataset.items():
-        pos = group.get("position", group.parent["amr"]["position"])
-        if pos.shape != group.shape:
+        pos = group.get("position", None)
+        if pos is None and "mesh" in dataset:
+            pos = dataset["mesh"].get("position", None)
+        if pos is None or pos.shape != group.shape:
             warnings.warn(
                 "Ignoring datagroup '{}', which has no position ".format(group)
                 + "vector and has different shape than 'amr' group."
@@ -39,8 +41,10 @@ def extract_box(dataset, dx, dy, dz, origin):
     subdomain.meta = dataset.meta.copy()
 
     for name, group in dataset.items():
-        pos = group.get("position", group.parent["amr"]["position"])
-        if pos.shape != group.shape:
+        pos = group.get("position", None)
+        if pos is None and "mesh" in dataset:
+            pos = dataset["mesh"].get("position", None)
+        if pos is None or pos.shape != group.shape:
             warnings.warn(
                 "Ignoring datagroup '{}', which has no position ".format(group)
                 + "vector and has different shape than 'amr' group."
